@@ -650,6 +650,11 @@ theorem finish_realloc {cfg : Cfg} {w w4 : World α} {c ncap n' : Nat} (hv : Vec
   · subst hw6; show upd w5.hdr c _ c = _; rw [upd_same, hw.hdr, hb.hdr]
   · subst hw6; show w5.next = _; rw [hw.next, hb.next]
 
+/-- a world is determined by its header map when nothing else differs -/
+theorem world_hdr_ext {w : World α} {h1 h2 : Nat → Vec} (h : ∀ x, h1 x = h2 x) : ({ w with hdr := h1 } : World α) = { w with hdr := h2 } := by
+  have : h1 = h2 := funext h
+  rw [this]
+
 theorem newCapacity_bounds (m cap req : Nat) (h1 : cap < req) (h2 : req ≤ m) :
     req ≤ newCapacity m cap req ∧ newCapacity m cap req ≤ m := by
   unfold newCapacity
